@@ -2,6 +2,7 @@ package main
 
 import (
 	"fmt"
+	"go/ast"
 	"go/token"
 	"go/types"
 	"strings"
@@ -313,7 +314,9 @@ func (fr *Frame) havocLoc(st *State, env *Env, loc *Expr, pos token.Pos) {
 		if bi, ok := vc.boxes[v.t]; ok {
 			if pt, ok := typesPointerElem(bi.t); ok {
 				fr.frameCheckRoot(st, bi.inner, "target("+loc.Args[0].String()+")", pos)
+				before := st.clone()
 				vc.havocPointee(st, bi.inner, pt, true, st.clk)
+				vc.assumeLinkedFresh(st, before, bi.inner, pt, st.clk)
 				return
 			}
 		}
@@ -453,6 +456,43 @@ func (fr *Frame) loopEnv(st, old *State, l *loopInfo, phiVal func(*ssa.Phi) Term
 		}
 		if phi.Comment != "" {
 			env.names[phi.Comment] = cval{phiVal(phi), vc.ctOf(phi.Type())}
+		}
+	}
+	// other named locals: a source variable whose references (debug info) inside the loop and in
+	// the blocks dominating its header all denote one SSA value
+	cand := map[string]ssa.Value{}
+	bad := map[string]bool{}
+	for _, b := range fr.fn.Blocks {
+		if !l.body[b] && b != l.header && !b.Dominates(l.header) {
+			continue
+		}
+		for _, in := range b.Instrs {
+			dr, ok := in.(*ssa.DebugRef)
+			if !ok || dr.IsAddr {
+				continue
+			}
+			id, ok := dr.Expr.(*ast.Ident)
+			if !ok {
+				continue
+			}
+			if _, isPhi := dr.X.(*ssa.Phi); isPhi {
+				continue
+			}
+			if prev, ok := cand[id.Name]; ok && prev != dr.X {
+				bad[id.Name] = true
+			}
+			cand[id.Name] = dr.X
+		}
+	}
+	for n, v := range cand {
+		if bad[n] {
+			continue
+		}
+		if _, dup := env.names[n]; dup {
+			continue
+		}
+		if t, ok := fr.vals[v]; ok {
+			env.names[n] = cval{t, vc.ctOf(v.Type())}
 		}
 	}
 	return env
